@@ -60,12 +60,13 @@ def sock_rule(P, C, fname, direction):
     results = [("data", 5, 0), ("eof", 0, 0), ("again", -1, EAGAIN), ("reset", -1, ECONNRESET)] + ([("refused", -1, ECONNREFUSED)] if rd else [])
     for event in (DIR, C["EV_TIMEOUT"], DIR | C["EV_TIMEOUT"]):
         for rname, res, err in results:
-            for left in ((0,) if rd else (0, 7)):
+            for left, low in (((0, 0),) if rd else ((0, 0), (7, 0), (7, 64), (0, 64))):
                 env = {"#typed": 1, "event_debug_logging_mask_": 0, f.params[0][0]: 9, f.params[1][0]: event, f.params[2][0]: 1, "#ops": (),
                        nkey(["fld", ["fld", bev, "bufferevent.wm_read", "->"], "event_watermark.high", "."]): 0,
                        nkey(["fld", bp, "bufferevent_private.read_suspended", "->"]): 0, nkey(["fld", bp, "bufferevent_private.write_suspended", "->"]): 0,
                        nkey(["fld", bp, "bufferevent_private.connecting", "->"]): 0, nkey(["fld", bp, "bufferevent_private.connection_refused", "->"]): 0,
                        nkey(["fld", bev, "bufferevent.enabled", "->"]): C["EV_READ"] | C["EV_WRITE"], nkey(["fld", bev, "bufferevent.input", "->"]): 71, nkey(["fld", bev, "bufferevent.output", "->"]): 72,
+                       nkey(["fld", ["fld", bev, "bufferevent.wm_write", "->"], "event_watermark.low", "."]): low,
                        "#outlen": 12}
 
                 def hook(el, e_):
@@ -124,7 +125,11 @@ def sock_rule(P, C, fname, direction):
                     if o.kind == "unknown":
                         r.brk("%s(event %#x, %s): %s %s" % (fname, event, rname, o.why, o.env.get("#err", "")))
                         return r
-                    got.add(tuple(x for x in o.env["#ops"] if x[0] not in ("charge", "event_del")))     # rate-limit accounting (C21) and event bookkeeping are not stream integrity
+                    got.add(tuple(x for x in o.env["#ops"] if x[0] not in ("charge", "event_del")))     # rate-limit accounting (C21) and event bookkeeping are not stream integrity ...
+                    if not rd and ("event_del",) in o.env["#ops"] and o.env.get("#outlen", 0) > 0 and rname in ("data", "again") and event != C["EV_TIMEOUT"]:
+                        # ... except this: the write event is what sends the rest (and carries the write timeout); removing it while output is left strands those bytes
+                        r.bad("K6:%s:write-event-removed-with-output-left" % fname, "%s:%d" % (f.file, f.line), fname,
+                              "event %#x, transfer answers %s, %d byte(s) still in the output (write low-water mark %d): the write event is deleted; nothing sends the rest and no write timeout can fire" % (event, rname, o.env["#outlen"], low))
                 # reference
                 BUF = 71 if rd else 72
                 END = 0 if rd else 1
@@ -139,7 +144,7 @@ def sock_rule(P, C, fname, direction):
                     elif rname == "reset":
                         core += [("disable", DIR), ("eventcb", DIRBIT | C["BEV_EVENT_ERROR"])]
                     want = tuple(core)
-                r.inst((event, rname, left), {"event": hex(event), "transfer_result": rname, "output_left": left, "actions": [list(x) for g in got for x in g]})
+                r.inst((event, rname, left, low), {"event": hex(event), "transfer_result": rname, "output_left": left, "write_low_mark": low, "actions": [list(x) for g in got for x in g]})
                 tmo = (("disable", DIR), ("eventcb", DIRBIT | C["BEV_EVENT_TIMEOUT"]))
                 if event == DIR | C["EV_TIMEOUT"] and got == {tmo}:
                     continue        # readiness and timeout together: reporting the timeout first loses nothing (the data stays in the socket / the buffer)
